@@ -304,7 +304,7 @@ def r2_shrink(ctx):
         ok = len(st) == 1 and 'allpaths' in R
         ctx.check('R2.shrink-only', f'{site(f, sel[0])} result mapping', ok, key(f, 'result-mapping'),
                   'the path recorded for a request is not the full path of the selected short list of that same request')
-    ctx.need('R2.shrink-only', 8)
+    ctx.need('R2.shrink-only', 7)      # (the trivial empty-list arm may be folded into `a or b`)
 
 
 def r3_raise(ctx):
